@@ -172,7 +172,7 @@ func checkC13(c C13Case) error {
 	return nil
 }
 
-const c13Rule = "control-flow programs (C09 grammar) whose text segments are ws* core ws* (ws from space, tab, CR, LF; core possibly empty) with a random subset of tag delimiters dashed; non-trivial = at least one dashed delimiter has whitespace to remove on its side; distinct by (context, source)"
+const c13Rule = "control-flow programs (C09 grammar) whose text segments are ws* core ws* (ws from space, tab, CR, LF; core possibly empty) with a random subset of tag delimiters dashed, comments placed directly against delimiters, and (1 in 4) more than 4096 bytes of text before or after the program; non-trivial = at least one dashed delimiter has whitespace to remove on its side; distinct by (context, source)"
 
 func TestC13Dashes(t *testing.T) {
 	r := NewRec(t, "C13", c13Rule)
@@ -184,18 +184,38 @@ func TestC13Dashes(t *testing.T) {
 		body := g.program(rapid.IntRange(1, 3).Draw(rt, "depth"))
 		// text between statements so that most delimiters have a text neighbour
 		var spaced []*S
+		ncomments := 0
 		for _, s := range body {
-			spaced = append(spaced, g.text(), s)
+			spaced = append(spaced, g.text())
+			// a comment directly against a (possibly dashed) delimiter: the whitespace beyond the
+			// comment is not adjacent to the delimiter and stays
+			if rapid.IntRange(0, 5).Draw(rt, "commentbefore") == 0 {
+				spaced = append(spaced, &S{K: "comment", T: " c "})
+				ncomments++
+			}
+			spaced = append(spaced, s)
+			if rapid.IntRange(0, 5).Draw(rt, "commentafter") == 0 {
+				spaced = append(spaced, &S{K: "comment", T: "c"})
+				ncomments++
+			}
 		}
 		spaced = append(spaced, g.text())
-		if rapid.IntRange(0, 3).Draw(rt, "large") == 0 {
+		switch rapid.IntRange(0, 7).Draw(rt, "large") {
+		case 0:
 			// beyond 4096 bytes the second tokenizer reads the template: dashes must behave alike
 			spaced = append(spaced, Text("<"+strings.Repeat("p", 4200)+">"))
+		case 1:
+			// the long text first: the template then ends with whatever the program ends with
+			// (possibly a dashed delimiter followed by nothing but whitespace)
+			spaced = append([]*S{Text("<" + strings.Repeat("p", 4200) + ">")}, spaced...)
 		}
 		c := C13Case{Ctx: g.x.ctx, Set: TSet{{Name: "main", Body: spaced}}}
 		_, eff, nd := handTrim(c.Set[0])
 		src := PrintTmpl(c.Set[0], SPrint{})
 		cls := []string{fmt.Sprintf("dashes:%d", min(nd, 9))}
+		if ncomments > 0 {
+			cls = append(cls, "comment-next-to-a-delimiter")
+		}
 		if len(src) > 4096 {
 			cls = append(cls, "template>4096")
 			src = src[:200] + "…"
